@@ -133,11 +133,11 @@ func c18NoWriteBeforeReject(c *Ctx) {
 			}
 			// explicit rejections: returns of a fresh error not guarded by a call's error
 			for _, ret := range ssax.Returns(fn) {
-				if !ssax.ReachableFrom(fn, win, ret, cut, nil) {
-					continue
-				}
-				if why := explicitReject(fn, ret); why != "" {
-					bad["explicit:"+why] = c.PosOf(ret)
+				for _, rj := range explicitRejects(fn, ret) {
+					if rj.at != ssa.Instruction(win) && !ssax.ReachableFrom(fn, win, rj.at, cut, nil) {
+						continue
+					}
+					bad["explicit:"+rj.why] = c.PosOf(ret)
 				}
 			}
 			var names []string
@@ -305,26 +305,47 @@ func r2Name(ci ssa.CallInstruction) string {
 // explicitReject: ret returns a non-nil error that is not the (possibly wrapped) error of a call: a rejection the
 // function decides itself (failed comparison, failed assertion, missing entry).
 func explicitReject(fn *ssa.Function, ret *ssa.Return) string {
+	if rj := explicitRejects(fn, ret); len(rj) > 0 {
+		return rj[0].why
+	}
+	return ""
+}
+
+type rejection struct {
+	why string
+	at  ssa.Instruction // the point where this alternative of the returned error is chosen
+}
+
+// explicitRejects examines every alternative of the returned error (a helper expanded in place returns through a merge).
+func explicitRejects(fn *ssa.Function, ret *ssa.Return) []rejection {
 	if len(ret.Results) == 0 || ret.Block() == fn.Recover {
-		return "" // (the recover block of a function with defers re-returns the spilled results)
+		return nil // (the recover block of a function with defers re-returns the spilled results)
 	}
 	ev := ret.Results[len(ret.Results)-1]
-	if !isErrorType(ev.Type()) || ssax.IsNilConst(ssax.Resolve(ev)) {
-		return ""
+	if !isErrorType(ev.Type()) {
+		return nil
 	}
-	if propagatesCallError(ev, 0) || underCallErrorBranch(ret) {
-		return ""
+	var out []rejection
+	for _, lf := range ssax.Leaves(ev, ret) {
+		if ssax.IsNilConst(ssax.Resolve(lf.V)) {
+			continue
+		}
+		if propagatesCallError(lf.V, 0) || underCallErrorBranchOf(lf.At.Block()) {
+			continue
+		}
+		p := npath(lf.V)
+		if len(p) > 50 {
+			p = p[:50] + "…"
+		}
+		out = append(out, rejection{p, lf.At})
 	}
-	p := npath(ev)
-	if len(p) > 50 {
-		p = p[:50] + "…"
-	}
-	return p
+	return out
 }
 
 // underCallErrorBranch: the return sits in the `err != nil` branch of a call's error result.
-func underCallErrorBranch(ret *ssa.Return) bool {
-	b := ret.Block()
+func underCallErrorBranch(ret *ssa.Return) bool { return underCallErrorBranchOf(ret.Block()) }
+
+func underCallErrorBranchOf(b *ssa.BasicBlock) bool {
 	for i := 0; i < 8 && b != nil; i++ {
 		if len(b.Preds) != 1 {
 			return false
